@@ -43,6 +43,16 @@ partial def parseTree : List String → Option (EV × List String)
       let n ← arg.toNat?
       let (x, rest') ← parseTree rest
       pure (.arr (List.replicate n x), rest')
+    else if tag.toString = "N" then do
+      -- the item wrapped in n nested arrays
+      let n ← arg.toNat?
+      let (x, rest') ← parseTree rest
+      pure ((List.range n).foldl (fun acc _ => EV.arr [acc]) x, rest')
+    else if tag.toString = "O" then do
+      -- the item wrapped in n nested objects {k: ...}
+      let n ← arg.toNat?
+      let (x, rest') ← parseTree rest
+      pure ((List.range n).foldl (fun acc _ => EV.obj [([107], acc)]) x, rest')
     else if tag.toString = "a" then do
       let n ← arg.toNat?
       let rec items (k : Nat) (acc : List EV) (ts : List String) : Option (List EV × List String) :=
